@@ -93,6 +93,7 @@ pub fn cells(tier: Tier) -> Vec<CellPlan> {
         Op::Nop,
         Op::MapPre(0, 1),
         Op::MapPre(1, 2),
+        Op::MapPre(0, 3),
         Op::DespawnPre(0, 1),
         Op::Mut(1, TA),
         Op::Ins(1, TB),
